@@ -47,7 +47,7 @@ class C16(Prop):
         'Rust harness harness/hrender and python orchestration; the python layout oracle (row parser) in lib/props/C16.py',
         'f32::log10 in SpanDisplay::new is modelled by an integer ceil-log10 (validated on every line number reached, incl. 9/10/11, 99/100/101, 999/1000/1001)',
     ]
-    rule = ('exhaustive short texts (<= tier bound lines) over {a, TAB, wide char, line ending} with all canonical spans as display and '
+    rule = ('exhaustive short texts (<= tier bound lines) over {a, TAB, wide char, zero-width characters, line ending} with all canonical spans as display and '
             'highlight spans (empty, within a line, ending at a line end, spanning 2..n lines, starting at column 0 or mid-line), '
             '1-3 highlights per display, 1-2 displays, every message type, named/unnamed, code id on/off, LF/CR/CRLF, plus long texts '
             'reaching line numbers 9/10/11, 99/100/101, 999/1000/1001; the plain rendering is compared byte for byte with the model and '
@@ -67,7 +67,7 @@ class C16(Prop):
                                    r.below(9), text, displays))
         lb = {'lf': ['LF'], 'cr': ['CR'], 'crlf': ['CR', 'LF']}
         # short texts: every span as display+highlight
-        lines_pool = [[], ['a'], ['a', 'b'], ['TAB', 'a'], ['w3', 'a', 'b'], ['a', 'TAB', 'b']]
+        lines_pool = [[], ['a'], ['a', 'b'], ['TAB', 'a'], ['w3', 'a', 'b'], ['a', 'TAB', 'b'], ['a', 'z3', 'b'], ['z2', 'a'], ['z3']]
         for le in ('lf', 'cr', 'crlf'):
             for nl in range(1, 4 if tier == 'quick' else 5):
                 for _ in range(12 if tier == 'quick' else 60):
